@@ -450,7 +450,7 @@ theorem endNode_spec (b : Bool) (h : HS) (hg : gen b h = true) :
     | none => simp [gen] at hg
     | some g =>
       simp only [gen, Bool.and_eq_true, Bool.not_eq_true'] at hg
-      obtain ⟨⟨⟨⟨⟨⟨⟨hl, hr⟩, ho⟩, hckl⟩, hckr⟩, hLc⟩, hop⟩, hep⟩ := hg
+      obtain ⟨⟨⟨⟨⟨⟨⟨⟨hl, hr⟩, ho⟩, hckl⟩, hckr⟩, hLc⟩, hopr⟩, hop⟩, hep⟩ := hg
       rcases orderOK_cases ho with ⟨hord, hepn⟩ | ⟨hord, heps⟩
       · have hlast : g.order.getLast? = some .right := by rw [hord]; rfl
         cases hec : endChain g.rchain with
@@ -461,7 +461,7 @@ theorem endNode_spec (b : Bool) (h : HS) (hg : gen b h = true) :
           have ho2 : orderOK { g with rchain := c } [.left, .operator, .right] = true := ho
           refine ⟨?_, ?_, ⟨by cases o <;> rfl, rfl, fun _ => by cases o <;> rfl⟩⟩
           · simp only [gen, Bool.and_eq_true, Bool.not_eq_true']
-            refine ⟨⟨⟨⟨⟨⟨⟨hl, hr⟩, ho2⟩, hckl⟩, chainOK_ext hext (Le.refl _) hckr⟩, hLc⟩, ?_⟩, hep⟩
+            refine ⟨⟨⟨⟨⟨⟨⟨⟨hl, hr⟩, ho2⟩, hckl⟩, chainOK_ext hext (Le.refl _) hckr⟩, hLc⟩, hopr⟩, ?_⟩, hep⟩
             cases o <;> simp_all
           · rw [fmt_bin ho, fmt_bin ho2]
             simp [hfm, hepn, optFmt]
@@ -471,7 +471,7 @@ theorem endNode_spec (b : Bool) (h : HS) (hg : gen b h = true) :
           simp only [endNode, hlast, hec]
           refine ⟨?_, ?_, ⟨by cases o <;> rfl, rfl, fun ρ => by cases o <;> simp [HS.eval, isame.ev ρ]⟩⟩
           · simp only [gen, Bool.and_eq_true, Bool.not_eq_true']
-            refine ⟨⟨⟨⟨⟨⟨⟨hl, ig⟩, ho⟩, hckl⟩, ?_⟩, hLc⟩, ?_⟩, hep⟩
+            refine ⟨⟨⟨⟨⟨⟨⟨⟨hl, ig⟩, ho⟩, hckl⟩, ?_⟩, hLc⟩, hopr⟩, ?_⟩, hep⟩
             · exact chainOK_ext (ChainExt.refl _) (by rw [ifm]; exact le_append_endTxt _) hckr
             · cases o <;> simp_all [isame.isU]
           · rw [fmt_bin ho, fmt_bin ho, ifm, happ]
@@ -482,7 +482,7 @@ theorem endNode_spec (b : Bool) (h : HS) (hg : gen b h = true) :
           orderOK_setEp ho (by cases g.ep <;> simp)
         refine ⟨?_, ?_, ⟨by cases o <;> rfl, rfl, fun _ => by cases o <;> rfl⟩⟩
         · simp only [gen, Bool.and_eq_true, Bool.not_eq_true']
-          refine ⟨⟨⟨⟨⟨⟨⟨hl, hr⟩, ho'⟩, hckl⟩, hckr⟩, hLc⟩, ?_⟩, ?_⟩
+          refine ⟨⟨⟨⟨⟨⟨⟨⟨hl, hr⟩, ho'⟩, hckl⟩, hckr⟩, hLc⟩, hopr⟩, ?_⟩, ?_⟩
           · cases o <;> simp_all
           · rw [optFmt_map_endComment _ heps]; exact isSep_append_endTxt hep
         · rw [fmt_bin ho, fmt_bin ho']
@@ -687,8 +687,10 @@ theorem new_cell_tok (d : Nat) (s : Bool) :
 /-! ## the operator text of new nodes (generated constants) -/
 
 theorem new_compl_opr : complOpr (Pad.format [.str (textOfCodes Gen.newOprComplCodes)]) = true := by decide
-theorem new_inter_opr : oprOK .inter (Pad.format [.str (textOfCodes Gen.newOprInterCodes)]) = true := by decide
-theorem new_union_opr : oprOK .union (Pad.format [.str (textOfCodes Gen.newOprUnionCodes)]) = true := by decide
+theorem new_inter_opr : (cleanPad [.str (textOfCodes Gen.newOprInterCodes)] &&
+    oprPre [.str (textOfCodes Gen.newOprInterCodes)]) = true := by decide
+theorem new_union_opr : (cleanPad [.str (textOfCodes Gen.newOprUnionCodes)] &&
+    oprPre [.str (textOfCodes Gen.newOprUnionCodes)]) = true := by decide
 
 theorem needsParens_inter (h : HS) : needsParens (some .inter) h = isUnion h := by
   cases h with
@@ -705,7 +707,7 @@ theorem needsParens_compl (h : HS) : needsParens none h = !isCellUnit h := by
 /-- one binary node: both children are linked -/
 theorem bin_step (o : BOp) (L R : HS) (g0 : GN) (c1 c2 : Nat) (hL : linked L = true) (hR : linked R = true)
     (ho : orderOK g0 [.left, .operator, .right] = true) (hpl : chainPads g0.lchain = true)
-    (hpr : chainPads g0.rchain = true) (hopr : oprOK o g0.opr.format = true) (hep : isSep false (optFmt g0.ep) = true) :
+    (hpr : chainPads g0.rchain = true) (hopr : (cleanPad g0.opr && oprPre g0.opr) = true) (hep : isSep false (optFmt g0.ep) = true) :
     let lk1 := linkChild c1 (some o) true g0.lchain g0.ltarget L
     let lk2 := linkChild c2 (some o) false g0.rchain g0.rtarget R
     let res := HS.bin o lk1.2.2.1 lk2.2.2.1
@@ -720,14 +722,13 @@ theorem bin_step (o : BOp) (L R : HS) (g0 : GN) (c1 c2 : Nat) (hL : linked L = t
     · show (_ || _) = (_ || _); rw [a3.ev ρ, b3.ev ρ]⟩⟩
   have ho' : orderOK { g0 with lchain := lk1.1, ltarget := lk1.2.1, rchain := lk2.1, rtarget := lk2.2.1 }
       [.left, .operator, .right] = true := ho
-  simp only [res, linked, gen, Bool.and_eq_true, Bool.not_eq_true']
-  refine ⟨⟨⟨⟨⟨⟨⟨a1, b1⟩, ho'⟩, a4⟩, b4⟩, a5 rfl⟩, ?_⟩, hep⟩
+  simp only [res, linked, gen, Bool.and_eq_true, Bool.not_eq_true', cond_false]
+  refine ⟨⟨⟨⟨⟨⟨⟨⟨a1, b1⟩, ho'⟩, a4⟩, b4⟩, a5 rfl⟩, by simpa using hopr⟩, ?_⟩, hep⟩
   cases o with
-  | union => exact hopr
+  | union => rfl
   | inter =>
-    simp only [oprOK, Bool.and_eq_true, Bool.not_eq_true'] at hopr
-    simp only [Bool.and_eq_true, Bool.not_eq_true', Bool.or_eq_true, Bool.not_false, Bool.true_or, and_true]
-    refine ⟨⟨hopr, ?_⟩, ?_⟩
+    simp only [Bool.and_eq_true, Bool.not_eq_true', Bool.or_eq_true, Bool.not_false, Bool.true_or, true_and]
+    refine ⟨?_, ?_⟩
     · cases hu : isUnion lk1.2.2.1 with
       | false => left; rfl
       | true => right; exact a6 (by rw [needsParens_inter, ← a3.isU]; exact hu)
@@ -927,7 +928,7 @@ theorem ensure_linked (c : Nat) (h : HS) (hw : wf h = true) :
         (ensureHasNodes (ensureHasNodes c l).2 r).2
         (linkChild (ensureHasNodes (ensureHasNodes c l).2 r).2 (some o) true g.lchain g.ltarget
           (ensureHasNodes c l).1).2.2.2
-        l1 r1 hgn.1.1.1.1 hgn.1.1.1.2 hgn.1.1.2 hgn.1.2 hgn.2
+        l1 r1 hgn.1.1.1.1 hgn.1.1.1.2 hgn.1.1.2 (by simpa using hgn.1.2) hgn.2
       exact ⟨s1, (s2 none).trans (Same.bin_congr o l2 r2 none (some g))⟩
 
 end MontePyVerif.C02
